@@ -2,11 +2,15 @@
 Driver side of the schema-1.x track commands (mirror of harness/djv_db.cpp's
 `create / mktrack / update / snap / get / set` and harness/djv_tracksv1.cpp):
 stateful mode `tracksv1` running the Model, plus stateless Spec commands
-`v1spec.normalize` / `v1spec.normfield` used by the direct oracle.
+`v1spec.normalize` / `v1spec.normfield` / `v1spec.putfield` used by the direct
+oracle.  After every state-changing command the mode re-checks, on the rows of
+the track concerned, that the value-level codec model agrees with the
+byte-level one and that the invariant `Inv` of the C06 theorems holds.
 -/
 import EngineModel.Driver.Loop
 import EngineModel.Driver.Values
 import EngineModel.TracksV1.SpecFields
+import EngineModel.TracksV1.SpecLens
 
 namespace Drv
 namespace TracksV1
@@ -201,6 +205,7 @@ def bad (st : St) (why : String) : St × String := (st, "bad-op " ++ why)
 def checkCodec (d : Db) (id : Int) : Option String :=
   match d.rows id with
   | some r =>
+    if !Inv r then some "bad-op invariant-broken" else
     match r.perf with
     | some p => if codecAgree p then none else some "bad-op codec-mismatch"
     | none => none
@@ -267,10 +272,30 @@ def step (st : St) (cmd : String) (args : List String) : St × String :=
       | some r => ({ st with db := some { d with tracks := aset id { r with perf := none } d.tracks } }, "ok")
       | none => bad st "rmperf"
     | _, _ => bad st "rmperf"
+  | "v1.skewgrid", [v] =>
+    -- default grid made different from the adjusted one (as Engine does when a grid is adjusted)
+    match st.db, lookupVar st v with
+    | some d, some id =>
+      match d.rows id with
+      | some r =>
+        match r.perf with
+        | some p =>
+          let dflt : List GMarker := if p.beat.adj.isEmpty then [⟨0, 0⟩, ⟨4, 0x40f5888000000000⟩] else []
+          let r' := { r with perf := some { p with beat := { p.beat with dflt := dflt } } }
+          finishDb st { d with tracks := aset id r' d.tracks } id "ok"
+        | none => (st, "ok")
+      | none => bad st "skewgrid"
+    | _, _ => bad st "skewgrid"
+  | "rmtrack", [v] =>
+    match st.db, lookupVar st v with
+    | some d, some id =>
+      ({ st with db := some (dbRemove d id) }, "ok")
+    | _, _ => bad st "rmtrack"
   | "get", v :: toks =>
     match st.db, lookupVar st v with
     | some d, some id =>
       match toks with
+      | ["valid"] => (st, if dbIsValid d id then "ok 1" else "ok 0")
       | ["filename"] =>
         (st, match d.rows id with
           | some r => "ok " ++ hexBytes (getDerived r .filename)
@@ -323,6 +348,17 @@ def specTable (cmd : String) (args : List String) : Option String :=
           | none => "ok reject"
         | none => "bad-op v1spec.normfield value"
       | none => "bad-op v1spec.normfield field"
+  | "v1spec.putfield", toks =>
+    -- the C06 lens on a snapshot: `<field> [index] <value> <snapshot>` → the snapshot after an accepted call
+    some <| match splitField toks with
+      | some (f, rest) =>
+        match runP (do let v ← parseVal f; let y ← pSnap; pure (v, y)) rest with
+        | some (v, y) =>
+          match Spec.normField f v with
+          | some w => "ok " ++ sSnap (Spec.putField y f w)
+          | none => "ok reject"
+        | none => "bad-op v1spec.putfield value"
+      | none => "bad-op v1spec.putfield field"
   | "v1spec.nonan", toks =>
     some <| match runP pSnap toks with
       | some x => if Spec.NoNaN x then "ok 1" else "ok 0"
